@@ -212,4 +212,106 @@ theorem eitherNext_fresh {α β γ δ ε : Type} (fa : Bytes → α) (fq : Bytes
           split <;> simp_all
         simp [eitherAfter, hs]
 
+
+/-! ## `EitherRecords` drained -/
+
+/-- an iterator `next` in `Res` as the pure abstract operation `EitherRecords::next` is translated against (where the
+translated `next` does not return normally — never, on the inputs of the theorems — the iterator just ends) -/
+def totalNext {σ a : Type} (nx : σ → Res (σ × Option a)) (s : σ) : Option a × σ :=
+  match nx s with
+  | .ok (s', o) => (o, s')
+  | _ => (none, s)
+
+/-- `EitherRecords` as an iterator state machine for `Rs.drain`: state = (`records`, `reader`) -/
+def eitherSrcNext {α β γ δ ε : Type} (fa : Bytes → α) (fq : Bytes → β)
+    (faN : α → Option (Except IoErr γ) × α) (fqN : β → Option (Except ε δ) × β) (st : Option (α ⊕ β) × Option Bytes) :
+    Res ((Option (α ⊕ β) × Option Bytes) × Option (Except (IoErr ⊕ ε) (γ ⊕ δ))) := do
+  let (o, recs, rd) ← Gen.SrcFastx.eitherNext readExactOp chainOp fa fq faN fqN st.1 st.2
+  pure ((recs, rd), o)
+
+/-- draining an initialised `EitherRecords` that holds the FASTA iterator = draining that iterator, items wrapped -/
+theorem drain_either_fasta {α β γ δ ε : Type} (fa : Bytes → α) (fq : Bytes → β)
+    (nx : α → Res (α × Option (Except IoErr γ))) (fqN : β → Option (Except ε δ) × β) :
+    ∀ (n : Nat) (s : α) (items : List (Except IoErr γ)), Rs.drain nx n s = Res.ok items →
+      Rs.drain (eitherSrcNext fa fq (totalNext nx) fqN) n (some (.inl s), none) =
+        Res.ok (items.map (wrapFa (δ := δ) (ε := ε))) := by
+  intro n
+  induction n with
+  | zero => intro s items h; simp [Rs.drain] at h
+  | succ n ih =>
+    intro s items h
+    cases hq : nx s with
+    | ok p =>
+      obtain ⟨s', r⟩ := p
+      have hstep : eitherSrcNext fa fq (totalNext nx) fqN (some (.inl s), none) =
+          Res.ok ((some (.inl s'), none), r.map wrapFa) := by
+        simp [eitherSrcNext, eitherNext_eq_model, totalNext, hq]
+      cases r with
+      | none =>
+        have : items = [] := by simpa [Rs.drain, hq] using h.symm
+        subst this
+        simp [Rs.drain, hstep]
+      | some a =>
+        cases hd : Rs.drain nx n s' with
+        | ok rest =>
+          have : items = a :: rest := by simpa [Rs.drain, hq, hd] using h.symm
+          subst this
+          simp [Rs.drain, hstep, ih s' rest hd]
+        | panic => simp [Rs.drain, hq, hd] at h
+        | fuel => simp [Rs.drain, hq, hd] at h
+    | panic => simp [Rs.drain, hq] at h
+    | fuel => simp [Rs.drain, hq] at h
+
+/-- … and the FASTQ iterator -/
+theorem drain_either_fastq {α β γ δ ε : Type} (fa : Bytes → α) (fq : Bytes → β)
+    (faN : α → Option (Except IoErr γ) × α) (nx : β → Res (β × Option (Except ε δ))) :
+    ∀ (n : Nat) (s : β) (items : List (Except ε δ)), Rs.drain nx n s = Res.ok items →
+      Rs.drain (eitherSrcNext fa fq faN (totalNext nx)) n (some (.inr s), none) =
+        Res.ok (items.map (wrapFq (γ := γ))) := by
+  intro n
+  induction n with
+  | zero => intro s items h; simp [Rs.drain] at h
+  | succ n ih =>
+    intro s items h
+    cases hq : nx s with
+    | ok p =>
+      obtain ⟨s', r⟩ := p
+      have hstep : eitherSrcNext fa fq faN (totalNext nx) (some (.inr s), none) =
+          Res.ok ((some (.inr s'), none), r.map wrapFq) := by
+        simp [eitherSrcNext, eitherNext_eq_model, totalNext, hq]
+      cases r with
+      | none =>
+        have : items = [] := by simpa [Rs.drain, hq] using h.symm
+        subst this
+        simp [Rs.drain, hstep]
+      | some a =>
+        cases hd : Rs.drain nx n s' with
+        | ok rest =>
+          have : items = a :: rest := by simpa [Rs.drain, hq, hd] using h.symm
+          subst this
+          simp [Rs.drain, hstep, ih s' rest hd]
+        | panic => simp [Rs.drain, hq, hd] at h
+        | fuel => simp [Rs.drain, hq, hd] at h
+    | panic => simp [Rs.drain, hq] at h
+    | fuel => simp [Rs.drain, hq] at h
+
+/-- the first `next` of a fresh object whose input starts with a legal character behaves like the first `next` of the
+initialised object, so the drained sequences coincide -/
+theorem drain_either_fresh {α β γ δ ε : Type} (fa : Bytes → α) (fq : Bytes → β)
+    (faN : α → Option (Except IoErr γ) × α) (fqN : β → Option (Except ε δ) × β) (file : Bytes) (k : Fastx.Kind)
+    (hk : sniff file = some k) (n : Nat) :
+    Rs.drain (eitherSrcNext fa fq faN fqN) n (none, some file) =
+      Rs.drain (eitherSrcNext fa fq faN fqN) n ((eitherAfter fa fq file).2, none) := by
+  cases n with
+  | zero => rfl
+  | succ n =>
+    have h1 : eitherSrcNext fa fq faN fqN (none, some file) =
+        eitherSrcNext fa fq faN fqN ((eitherAfter fa fq file).2, none) := by
+      simp only [eitherSrcNext]
+      rw [eitherNext_fresh]
+      cases file with
+      | nil => simp [sniff] at hk
+      | cons b r => simp [hk]
+    simp only [Rs.drain, h1]
+
 end RbV.Thm.GenSrcFastx
